@@ -69,3 +69,16 @@ Theorem C12_vesting_pools_export_import_is_identity :
   fold_left (fun st o => kset (go_owner o) (go_pools o) st) (vstore_export_owners s) [] = vs_pools s.
 Proof. exact pool_store_export_import_identity. Qed.
 Print Assumptions C12_vesting_pools_export_import_is_identity.
+
+(* lineage traces: what InitGenesis stores is in key order with every entry under its own address, and exporting such a
+   store and importing the export gives the same store (ids and flags included) *)
+Theorem C12_vesting_trace_store_is_well_keyed :
+  forall g B s, vgenesis_init g B = Some s -> ksorted (vs_traces s) /\ forall e, In e (vs_traces s) -> gt_addr (snd e) = fst e.
+Proof. exact init_trace_store_well_keyed. Qed.
+Print Assumptions C12_vesting_trace_store_is_well_keyed.
+
+Theorem C12_vesting_traces_export_import_is_identity :
+  forall s, ksorted (vs_traces s) -> (forall e, In e (vs_traces s) -> gt_addr (snd e) = fst e) ->
+  fold_left (fun st t => kset (gt_addr t) t st) (vstore_export_traces s) [] = vs_traces s.
+Proof. exact trace_store_export_import_identity. Qed.
+Print Assumptions C12_vesting_traces_export_import_is_identity.
